@@ -16,6 +16,7 @@ claimed={
  "C09":("other","Every strict prefix at operation granularity of a valid stream (symbolic cut index) is rejected by the real Reader; cuts inside an operation are covered by the bitstream 'read beyond end panics' obligations.","DESIGN.md 5/C09", TECH+", symbolic cut index"),
  "C06":("other","Short reads of the source (enumerated sizes, symbolic content) on the real input bitstream, arbitrary Write partitions (inductive, C04 harness) and several Read buffer sizes.","DESIGN.md 5/C06", TECH),
  "C02":("other","Checksum pipeline logic: a block whose stored checksum differs from the hash of the decoded data is reported and no wrong byte is ever delivered by any call; hash abstracted, replay with the real hash.","DESIGN.md 5/C02", TECH),
+ "C07":("model_checking","Bounded model checking with the schedule and fault placement as solver variables: per-task guarded automata are extracted from the real encode/decode SSA in protocol mode (counter value unknown to the task, shared-stream and counter operations visible), composed for N tasks and unrolled to a checked completeness threshold; z3 decides exclusion, order, deadlock-freedom, cancel-marker and counter obligations. Counterexample schedules are forced natively by timing doubles.","DESIGN.md 4, 5/C07", "protocol automata extracted by symbolic execution of Go SSA + SMT-based BMC over solver-chosen schedules (z3)"),
 }
 NA_REASON={}
 checks=[]
